@@ -94,15 +94,42 @@ def gen_history(rng, tag):
     return {'kind': 'history', 'sets': sets, 'cfgs': cfgs, 'ops': ops}
 
 
+def gen_probe(rng, tag, writer):
+    """[shared writer: loaded set, plain set, loaded set] - anything a write() leaves behind on the writer
+    object (layout, span flag, last time, region creator) must not show in the next output."""
+    loaded = capsets.rich_set(rng, tag + '.a', layout_fn=geom.pct_layout, p_layout=1.0, max_caps=2,
+                              levels=('lang', 'caption', 'span', 'set'), weird_names=False)
+    if rng.random() < 0.5:
+        nodes = loaded['langs'][-1]['captions'][-1]['nodes']
+        nodes.append(['s', True, {'italics': True}])
+        nodes.append(['t', 'left open'])
+        loaded['unclosed'] = True
+    plain = capsets.simple_set(rng, tag + '.b', nlang=1, ncap=2, p_meta=0.1)
+    while True:
+        cfg = gen_writer_cfg(rng)
+        if cfg['writer'] == writer:
+            break
+    cfg['opts'].pop('default_positioning', None)
+    if writer != 'LegacyDFXPWriter':
+        cfg['opts']['relativize'] = True
+    return {'kind': 'history', 'sets': [loaded, plain], 'cfgs': [cfg],
+            'ops': [{'cfg': 0, 'set': 0, 'kw': {}, 'fresh': False}, {'cfg': 0, 'set': 1, 'kw': {}, 'fresh': False},
+                    {'cfg': 0, 'set': 0, 'kw': {}, 'fresh': False}, {'cfg': 0, 'set': 1, 'kw': {}, 'fresh': False}]}
+
+
 def cases(ctx):
     rng = ctx.rng('c09')
-    for i in range(ctx.budget(120, 6000)):
+    for k, writer in enumerate(ALL_WRITERS):
+        for rep in range(2 if ctx.tier == 'quick' else 20):
+            if ctx.mine(k * 31 + rep):
+                yield gen_probe(rng, f'P{ctx.shard}.{k}.{rep}', writer)
+    for i in range(ctx.budget(160, 6000)):
         yield gen_history(rng, f'H{ctx.shard}.{i}')
         if i % 4 == 0:
-            cfg = gen_writer_cfg(rng)
-            cfg['writer'] = ALL_WRITERS[(i // 4 + ctx.shard) % len(ALL_WRITERS)]
-            if cfg['writer'] == 'LegacyDFXPWriter':
-                cfg['opts'] = {}
+            while True:
+                cfg = gen_writer_cfg(rng)
+                if cfg['writer'] == ALL_WRITERS[(i // 4 + ctx.shard) % len(ALL_WRITERS)]:
+                    break
             spec = capsets.rich_set(rng, f'F{ctx.shard}.{i}', layout_fn=mixed_layout, p_layout=0.4, max_caps=2)
             yield {'kind': 'faults', 'cfg': cfg, 'set': spec, 'sample_seed': rng.randrange(10 ** 6)}
 
